@@ -9,12 +9,16 @@ SPEC = dict(
                "lazily built state is met by the first concurrent searches; every concurrent answer is compared with the sequential answer "
                "(stable-reference rule) and monitor totals with the number of monitored searches; in a third of the rounds an embedding index is "
                "attached (shared word vectors) and the mix holds one-word requests and longer ones sharing the word; in those rounds and a quarter of the "
-               "others every request is also run as the only search on a fresh instance obtained the same way and must get the same answer; (2) thousands of short LRU / SearchCache "
+               "others every request is also run as the only search on a fresh instance obtained the same way and must get the same answer; for "
+               "file-loaded rounds a child process loads the same file and answers the requests last to first (the mix holds requests that read alike "
+               "once punctuation is ignored); (2) thousands of short LRU / SearchCache "
                "histories (3-6 clients x 6-12 ops, capacity 1-3, 2-4 keys, unique values per Put) recorded at the client boundary with one "
                "monotonic clock and checked by porcupine against a sequential LRU model (Get/Put/Delete/Size/Stats/Keys/sweep/clear); a third of "
                "them with a lifetime of 1000 h and virtual-time steps of 400 h mixed into the history (entries of different ages; a sweep may drop dead "
                "entries only), checked against a nondeterministic model in which dead entries may vanish at any time; "
-               "(3) a 16-goroutine LRU hammer. Any race report whose stack touches the module is a violation.",
+               "(3) single-writer rounds: one goroutine runs a fixed script of 150-400 Put / Get / Delete / Clear while four others call Stats() "
+               "in a tight loop - every answer must be one of the states the script passes through when run alone, never an earlier one after a later one; "
+               "(4) a 16-goroutine LRU hammer. Any race report whose stack touches the module is a violation.",
     level_note="The race detector sees only races on executed paths with the observed happens-before; linearizability is decided per recorded history "
                "(porcupine timeout 10 s => inconclusive). EnableCache / EnableMonitoring are not in the statement's list of concurrent operations and are not mixed in.",
     engines=[dict(name="conc-search", shards=T(8, 16), timeout=T(1500, 7200), race=True, parallel=8),
@@ -23,10 +27,10 @@ SPEC = dict(
          "(round parameters) resp. by the observed order of call events (an interleaving shape); all are non-trivial (concurrent by construction).",
     floors=T({"goroutine-rounds": 40, "concurrent-answers-compared": 3000, "loaded-by:LoadDatabaseWithFallback(faulty path)": 8, "monitored-searches": 500,
               "histories-linearizable": 2000, "histories-searchcache": 300, "lru-hammer-rounds": 30, "distinct_nontrivial": 2000,
-              "rounds-with-embeddings": 8, "fresh-instance-answers-compared": 60, "histories-with-lifetime": 500, "sweeps-that-removed-entries": 30},
+              "rounds-with-embeddings": 8, "fresh-instance-answers-compared": 60, "other-process-answers-compared": 50, "snapshot-rounds": 200, "snapshot-reads": 50000, "histories-with-lifetime": 500, "sweeps-that-removed-entries": 30},
              {"goroutine-rounds": 250, "concurrent-answers-compared": 20000, "loaded-by:LoadDatabaseWithFallback(faulty path)": 50, "monitored-searches": 3000,
               "histories-linearizable": 40000, "histories-searchcache": 6000, "lru-hammer-rounds": 300, "distinct_nontrivial": 40000,
-              "rounds-with-embeddings": 60, "fresh-instance-answers-compared": 500, "histories-with-lifetime": 10000, "sweeps-that-removed-entries": 600}),
+              "rounds-with-embeddings": 60, "fresh-instance-answers-compared": 500, "other-process-answers-compared": 400, "snapshot-rounds": 2000, "snapshot-reads": 500000, "histories-with-lifetime": 10000, "sweeps-that-removed-entries": 600}),
     assumptions=["two thirds of the recorded LRU histories have no lifetime (time-independent model); in the others time is virtual (VerifAdvance) and ages are 400 h steps against a 1000 h lifetime, so real elapsed time never decides",
                  "all searches of one round use the same option set so that the cache-key projection cannot confuse requests (C05's business)"],
 )
